@@ -516,6 +516,66 @@ func VerifC26Reload(h *verifrt.H) {
 	h.Cover("end")
 }
 
+// VerifC01Swamp: last-writer-wins through the whole storage stack (real swamp, real chronicler
+// V2 batch writer, real file format on the FS model; immediate-write or one write interval):
+// up to maxOps set/delete operations over two well-formed keys and one key the file format
+// cannot hold (empty or 65536 bytes) with symbolic values, then Close and a re-summon from the
+// file: every well-formed key has exactly the existence and value of its last operation.
+func VerifC01Swamp(h *verifrt.H) {
+	h.BackgroundLowPriority(true)
+	dir := h.TempDir() + "/sw"
+	wi := time.Duration(h.Choose("immediateWrite", 2)) * time.Second
+	s := vfPersist(h, dir, time.Second-wi, nil)
+	badKey := ""
+	if h.Choose("malformedKind", 2) == 1 {
+		badKey = strings.Repeat("k", 65536)
+	}
+	keys := []string{"good-a", "good-b", badKey}
+	type st struct {
+		exists bool
+		val    int64
+	}
+	model := map[string]st{}
+	n := h.Len("ops", 1, h.Param("maxOps", 3))
+	for i := 0; i < n; i++ {
+		k := keys[h.Choose("key", 3)]
+		if h.Choose("delete", 2) == 1 {
+			if s.IsClosing() {
+				break
+			}
+			_ = s.DeleteTreasure(k, false)
+			model[k] = st{}
+			continue
+		}
+		if s.IsClosing() {
+			break
+		}
+		v := h.Int64("value")
+		c09set(s, k, v)
+		model[k] = st{true, v}
+	}
+	if s.IsClosing() {
+		// the last delete emptied and destroyed the swamp
+		for k := range model {
+			model[k] = st{}
+		}
+	} else {
+		s.Close()
+	}
+	r := vfPersist(h, dir, time.Second, nil)
+	for _, k := range keys[:2] {
+		t, err := r.GetTreasure(k)
+		want := model[k]
+		h.Assert((err == nil) == want.exists, "reload-existence-is-last-writer-wins")
+		if err == nil && want.exists {
+			v, e := t.GetContentInt64()
+			h.Assert(e == nil && v == want.val, "reload-value-is-last-writer-wins")
+		}
+	}
+	r.Close()
+	h.Cover("end")
+}
+
 // ---------- C09 ----------
 
 func c09set(s Swamp, key string, v int64) treasure.TreasureStatus {
